@@ -169,16 +169,39 @@ func (env *SpecEnv) eval(e Expr) *Val {
 	case *EQuant:
 		c := env.child()
 		var decls []string
+		var qnames []string
 		for _, v := range x.Vars {
 			fx.nfresh++
 			n := fmt.Sprintf("q_%s_%d", sanitize(v), fx.nfresh)
 			decls = append(decls, "("+n+" Int)")
+			qnames = append(qnames, n)
 			c.vars[v] = mkInt(n, nil)
 		}
+		var facts []string
+		saved := env.st.wfSink
+		env.st.wfSink = &facts
+		var savedOld *[]string
+		if env.old != nil && env.old != env.st {
+			savedOld = env.old.wfSink
+			env.old.wfSink = &facts
+		}
 		body := c.evalBool(x.Body)
+		env.st.wfSink = saved
+		if env.old != nil && env.old != env.st {
+			env.old.wfSink = savedOld
+		}
 		q := "forall"
 		if !x.Forall {
 			q = "exists"
+			body = tAnd(append(facts, body)...)
+		} else if len(facts) > 0 {
+			body = tImp(tAnd(facts...), body)
+		}
+		if x.Forall {
+			nb, pat := normaliseForall(body, qnames)
+			if pat != "" {
+				return mkBool("(forall (" + strings.Join(decls, " ") + ") (! " + nb + " :pattern (" + pat + ")))")
+			}
 		}
 		return mkBool("(" + q + " (" + strings.Join(decls, " ") + ") " + body + ")")
 	case *EIndex:
@@ -581,6 +604,22 @@ func (env *SpecEnv) call(x *ECall) *Val {
 			return mkInt(a.O, nil)
 		}
 		return env.fail("off of non-slice")
+	case "rawbyte":
+		// rawbyte(s, j): element j (absolute index in the backing array, ignoring the slice's offset) of s's backing array
+		a := arg(0)
+		if a.K != KSlice {
+			return env.fail("rawbyte of non-slice")
+		}
+		et := a.T.Underlying().(*types.Slice).Elem()
+		return st.loadLoc(&Loc{Mem: true, Ref: a.B, Idx: env.evalInt(x.Args[1]), Root: typeKey(et), T: et, RootT: et})
+	case "extendLeft":
+		// extendLeft(s, n): the slice that starts n elements before s in the same backing array (undoes s = s[n:])
+		a := arg(0)
+		if a.K != KSlice {
+			return env.fail("extendLeft of non-slice")
+		}
+		n := env.evalInt(x.Args[1])
+		return &Val{K: KSlice, T: a.T, B: a.B, O: tSub(a.O, n), L: tAdd(a.L, n), C: tAdd(a.C, n)}
 	case "sameSlice":
 		a, b := arg(0), arg(1)
 		if a.K != KSlice || b.K != KSlice {
